@@ -173,6 +173,6 @@ MUTANTS = [
       "        if self._version == MDMF_VERSION:\n            blockhash = await defer_to_thread(hashutil.block_hash, salt + block)",
       None),
     # ---- vanished anchor
-    M("vanish-got-signature", SM, "    def _got_signature_one_share(self, results, shnum, server, lp):",
-      "    def _got_signature_one_shareX(self, results, shnum, server, lp):", "ANALYSIS-ERROR"),
+    M("vanish-validate-block", RET, "    async def _validate_block(self, results, segnum, reader, server, started):",
+      "    async def _validate_blockX(self, results, segnum, reader, server, started):", "ANALYSIS-ERROR"),
 ]
